@@ -163,10 +163,22 @@ def record_fit(ctx, rng, it, km, X, n, k, d, strategy, kmeans0, seed, max_iter, 
     ftr.append(dict(id="fit%s" % it, kind="fit", n=n, k=k, labels=lab, balanced=False, dist=[],
                     finite=bool(numpy.all(numpy.isfinite(km.cluster_centers_))),
                     n_iter=int(km.n_iter_), max_iter=int(max_iter), site=site, sig=sig))
-    # predictions
-    m = rng.randint(k, 20)
+    # predictions: a batch of any size, then (balanced models) a batch smaller than k with a repeated point
+    m = rng.randint(1, 20) if rng.random() < 0.4 else rng.randint(k, 20)
     Xq = numpy.array([[rng.randint(0, 6) for _ in range(d)] for _ in range(m)], dtype=numpy.float64)
-    psig = "predict balanced=%s m%%k=%s" % (balanced, "0" if m % k == 0 else ("1" if m % k == 1 else ">=2"))
+    batches = [("", Xq)]
+    if balanced and k >= 3:
+        m2 = rng.randint(2, k - 1)
+        Xs = numpy.array([[rng.randint(0, 6) for _ in range(d)] for _ in range(m2)], dtype=numpy.float64)
+        Xs[1] = Xs[0]
+        batches.append(("s", Xs))
+    for tag, Xq in batches:
+        record_predict(ctx, "%s%s" % (it, tag), km, Xq, k, balanced, site, dtr, gtr, ftr)
+
+
+def record_predict(ctx, it, km, Xq, k, balanced, site, dtr, gtr, ftr):
+    m = Xq.shape[0]
+    psig = "predict balanced=%s m%%k=%s%s" % (balanced, "0" if m % k == 0 else ("1" if m % k == 1 else ">=2"), " m<k" if m < k else "")
     praised = None
     with Sink() as ev:
         try:
